@@ -123,7 +123,7 @@ pub struct ReplExec {
     line: String,
     /// (client, client entity bits) -> last confirmed tick seen
     prev_last_tick: BTreeMap<(usize, u64), u32>,
-    prev_update_tick: Vec<u32>,
+    prev_update_tick: Vec<Option<u32>>,
     states: Vec<u64>,
     pub structural_ops: u32,
     pub applied_ops: u32,
@@ -253,14 +253,17 @@ impl ReplCell {
 
         if self.oracles.c03 {
             let t = view.update_tick;
-            if t < x.prev_update_tick[c] {
+            if let Some(prev) = x.prev_update_tick[c].filter(|&p| tick_older(t, p)) {
                 return Err(self.v(
                     "C03",
                     "update-tick-decreased",
-                    format!("client c{c}: update tick went from {} to {t}", x.prev_update_tick[c]),
+                    format!("client c{c}: update tick went from {prev} to {t}"),
                 ));
             }
-            x.prev_update_tick[c] = t;
+            // the client's initial update tick (0) is a default, not a server tick
+            if t != 0 || x.prev_update_tick[c].is_some() {
+                x.prev_update_tick[c] = Some(t);
+            }
             let Some(snap) = x.sim.snaps.get(&t) else {
                 return Err(self.v(
                     "C03",
@@ -571,7 +574,7 @@ impl Scenario for ReplCell {
             round_tick: true,
             line: String::new(),
             prev_last_tick: BTreeMap::new(),
-            prev_update_tick: vec![0; self.clients()],
+            prev_update_tick: vec![None; self.clients()],
             states: vec![],
             structural_ops: 0,
             applied_ops: 0,
